@@ -12,7 +12,7 @@ INV_RR_INNER = ("0 <= j and j <= LEN(ranges) and 0 <= i and i < LEN(ranges) and 
                 "and CODE(start_i) == CODE(ranges[i][0]) and CODE(end_i) == CODE(ranges[i][1])")
 C[K + "__or.<locals>.reduce_ranges"] = dict(
     params={"ranges": "rangestrs"}, requires="WFR(ranges)", raises={}, lists="concrete",
-    ensures="WFR(result) and VEQ(RV(result), RV(ranges))",
+    ensures="WFR(result) and VEQ(RV(result), RV(ranges))", returns="fresh_abs", result_shape="range",
     loops={1: {"inv": INV_RR_OUTER, "kinds": {"ranges": "pair"}},
            2: {"inv": INV_RR_INNER, "kinds": {"ranges": "pair"}}},
     frame=[])
@@ -24,6 +24,7 @@ INV_RC_INNER = ("LSAME(ranges, ENTRY['ranges']) and LSAME(chars, ENTRY['chars'])
 C[K + "__or.<locals>.reduce_chars"] = dict(
     params={"ranges": "rangestrs", "chars": "charlist"}, requires="WFR(ranges) and WFC(chars)", raises={}, lists="concrete",
     ensures="WFR(result[0]) and WFC(result[1]) and VEQ(VU(RV(result[0]), CV(result[1])), VU(RV(ranges), CV(chars)))",
+    returns="fresh_abs", result_shape=("range", "char"),
     loops={1: {"inv": INV_RC_OUTER, "kinds": {"ranges": "pair", "chars": "char"}},
            2: {"inv": INV_RC_INNER, "kinds": {"ranges": "pair", "chars": "char"}}},
     frame=[])
@@ -33,11 +34,28 @@ INV_SR_OUTER = ("0 <= i and i <= LEN(ranges1) and WFR(ranges1) and WFR(ranges2) 
                 "VEQ(VM(RV(ranges1), RV(ranges2)), VM(RV(ARGS['ranges1']), RV(ARGS['ranges2']))) and "
                 "PREFIX_DISJ(ranges1, i, RV(ranges2))")
 INV_SR_INNER = ("LSAME(ranges1, ENTRY['ranges1']) and i == ENTRY['i'] and PREFIX_DISJ(ranges2, K, ELV(ranges1, i))")
-INV_SR_FINAL = ("VEQ(VU(RV(ranges), CV(chars)), PREFIXV(ranges1, K)) and WFC(chars)")
+INV_SR_FINAL = ("VEQ(VU(RV(ranges), CV(chars)), PREFIXV(ranges1, K)) and WFC(chars) and WFR(ranges)")
 C[K + "__sub.<locals>.subtract_ranges"] = dict(
     params={"ranges1": "rangestrs", "ranges2": "rangestrs"}, requires="WFR(ranges1) and WFR(ranges2)", raises={}, lists="concrete",
     ensures="WFR(result[0]) and WFC(result[1]) and VEQ(VU(RV(result[0]), CV(result[1])), VM(RV(ranges1), RV(ranges2)))",
+    returns="fresh_abs", result_shape=("range", "char"),
     loops={1: {"inv": INV_SR_OUTER, "kinds": {"ranges1": "pair"}},
            2: {"inv": INV_SR_INNER, "kinds": {"ranges1": "pair"}},
            3: {"inv": INV_SR_FINAL, "kinds": {"ranges": "rangestr", "chars": "char"}}},
     frame=[])
+
+
+# ---- G8b: the orchestration of the core operations over the interval core -------------------------------------------
+# Python sets of class items are tracked by the set of code points they denote (abstract sets); what a bracket text lists
+# is the uninterpreted TV(text), linked to the item sets by the assumed contracts of the text layer:
+#   __extract_classes(t, unescape=True) = (R, Cs) with  TV(t) = RV(R) u CV(Cs), items unescaped and well formed
+#   __modify_classes(S, escape=True) = E with  TV('[' + ''.join(E) + ']') = TV('[^' + ''.join(E) + ']') = view(S)
+#   __Class.__init__(t, neg, sw): TV(verbose of the instance) = TV(t)                       (what __process keeps)
+KC = "pregex.core.classes."
+C[K + "__extract_classes"] = dict(params={"pattern": "text", "unescape": "bool"}, requires="unescape", raises={},
+                                  returns="extract_classes", assumed=True)
+C[K + "__modify_classes"] = dict(params={"classes": "text", "escape": "bool"}, requires="escape", raises={},
+                                 returns="modify_classes", assumed=True)
+C[KC + "AnyWordChar._is_global"] = dict(inline=True)
+C[KC + "AnyButWordChar._is_global"] = dict(inline=True)
+CLS_KINDS = ["classobj:Class", "classobj:Token", "classobj:Any", "classobj:Word", "classobj:ButWord"]
